@@ -41,19 +41,75 @@ static int pmod(long a, long n) { return (int)(((a % n) + n) % n); }
 // ======================================================================================================
 // The C ring: real ring_head over an exactly-sized heap buffer, plus the reference queue
 // ======================================================================================================
+// Every public way to set a ring_head up. A ring is a ring however it was initialised: all C-ring universes are run over each.
+enum
+{
+    INIT_FN,     // ring_init() on an uninitialised struct
+    INIT_MACRO,  // struct ring_head r = RING_HEAD_INIT(n);  (the static initialiser)
+    INIT_REINIT, // ring_init() again on a ring that was set up for another size and has been used
+    N_INIT
+};
+static const char *const INIT_NAME[] = {"ring_init", "RING_HEAD_INIT", "ring_init(re-init)"};
+template <unsigned N> static struct ring_head static_ring_head()
+{ // a ring_head in static storage, initialised by the macro with a constant, as firmware does
+    static struct ring_head r = RING_HEAD_INIT(N);
+    return r;
+}
+static void init_ring_head(struct ring_head *r, unsigned size, int path)
+{
+    memset((void *)r, 0xAB, sizeof *r);
+    switch (path)
+    {
+    case INIT_FN:
+        ring_init(r, size);
+        break;
+    case INIT_MACRO:
+    {
+        struct ring_head tmp = RING_HEAD_INIT(size);
+        switch (size)
+        { // the literally static instances
+        case 2:
+            tmp = static_ring_head<2>();
+            break;
+        case 5:
+            tmp = static_ring_head<5>();
+            break;
+        case 9:
+            tmp = static_ring_head<9>();
+            break;
+        case 256:
+            tmp = static_ring_head<256>();
+            break;
+        case 1000:
+            tmp = static_ring_head<1000>();
+            break;
+        }
+        *r = tmp;
+        break;
+    }
+    default:
+        ring_init(r, size + 3);
+        ring_move_head(r, 2);
+        ring_move_tail(r, 1);
+        ring_init(r, size);
+        break;
+    }
+}
+
 struct CR
 {
     ring_head r;
     char *buf;
     unsigned size;
     Ref ref;
-    explicit CR(unsigned n) : size(n)
+    int init_path;
+    explicit CR(unsigned n, int path = INIT_FN) : size(n), init_path(path)
     {
         buf = (char *)malloc(size);
         memset(buf, 0xA5, size);
-        ring_init(&r, size);
+        init_ring_head(&r, size, path);
     }
-    CR(const CR &o) : r(o.r), size(o.size), ref(o.ref)
+    CR(const CR &o) : r(o.r), size(o.size), ref(o.ref), init_path(o.init_path)
     {
         buf = (char *)malloc(size);
         memcpy(buf, o.buf, size);
@@ -289,6 +345,16 @@ static bool check_counts(CR &c, const string &p, const char *when)
     return true;
 }
 
+// a ring straight out of one of the initialisation paths: empty, all of size-1 free, indices in range
+static bool fresh_ok(CR &c)
+{
+    if (!c.ref.empty())
+        mc::harness_error("fresh_ok on a used ring");
+    int v0 = g_viols;
+    bool ok = check_counts(c, string("C03.") + INIT_NAME[c.init_path] + ".fresh.", INIT_NAME[c.init_path]);
+    return ok && g_viols == v0;
+}
+
 static void verify(CR &c, const char *opname, bool skip_getc_drain = false)
 {
     string p = string("C03.") + opname + ".post.";
@@ -390,13 +456,19 @@ static void cring_case()
 {
     int si = mc::choose((int)g_states.size());
     int pat = mc::choose(4);
+    int path = pat == 0 ? mc::choose(N_INIT) : INIT_FN; // the initialisation path only decides the ring_head, not the content: crossed with one pattern
     int grp = mc::choose(7);
     St s = g_states[si];
     unsigned size = s.size, avail = (s.head >= s.tail) ? s.head - s.tail : size + s.head - s.tail, room = size - 1 - avail;
-    mc::describe("ring size=%u head=%u tail=%u (avail %u) content pattern %d, ops: %s", size, s.head, s.tail, avail, pat, GRP[grp]);
+    mc::describe("ring size=%u set up by %s, head=%u tail=%u (avail %u) content pattern %d, ops: %s", size, INIT_NAME[path], s.head, s.tail, avail, pat, GRP[grp]);
     long n = 0, nt = 0;
     auto eval = [&](const char *opname, const std::function<void(CR &)> &f) {
-        CR c(size);
+        CR c(size, path);
+        if (!fresh_ok(c))
+        {
+            n++;
+            return;
+        }
         if (pat == 1)
             memset(c.buf, 0x00, size);
         c.r.head = s.head;
@@ -481,7 +553,8 @@ struct CRingModel : mc::Model
         TAIL_ONE,
         MOVE_HEAD,
         MOVE_TAIL,
-        CLEAN
+        CLEAN,
+        REINIT // arg = initialisation path: the ring is set up again from whatever state it is in
     };
     struct Op
     {
@@ -505,6 +578,8 @@ struct CRingModel : mc::Model
         ops.push_back({MOVE_TAIL, 2});
         ops.push_back({MOVE_TAIL, -1});
         ops.push_back({CLEAN, 0});
+        for (int path = 0; path < N_INIT; path++)
+            ops.push_back({REINIT, path});
     }
     int nops() override { return (int)ops.size(); }
     string opname(int o) override
@@ -513,6 +588,8 @@ struct CRingModel : mc::Model
         Op p = ops[o];
         if (p.kind == PUTC)
             return mc::fmt("ring_putc(%02x)", p.arg);
+        if (p.kind == REINIT)
+            return mc::fmt("re-initialise by %s", INIT_NAME[p.arg]);
         if (p.arg < 0)
             return mc::fmt("%s(all)", nm[p.kind]);
         return mc::fmt("%s(%d)", nm[p.kind], p.arg);
@@ -583,6 +660,13 @@ struct CRingModel : mc::Model
             op_clean(c);
             nm = "ring_clean";
             break;
+        case REINIT:
+            init_ring_head(&c.r, c.size, p.arg);
+            c.init_path = p.arg;
+            c.ref.clear();
+            fresh_ok(c);
+            nm = INIT_NAME[p.arg];
+            break;
         }
         // A transition (pre-state, op) that this process has already read back in full is not read back again when
         // it recurs as a step of a replayed history: same state, same code, same result.
@@ -651,14 +735,30 @@ static int typed_max() { return mc::thorough() ? 17 : 9; }
 template <class T> struct TR
 {
     int bufsize;
-    igris::ring<T> ring;
+    std::unique_ptr<igris::ring<T>> holder;
+    igris::ring<T> &ring;
     std::deque<T> live;    // FIFO content
     std::vector<T> pushed; // every value ever pushed, oldest first
     size_t window = 0;     // how many of the most recent pushes are still in the buffer, contiguous behind head
     int stamp = 0;
     int v_base = g_viols; // an instance that has shown a violation is not used further (its reference has diverged)
     bool dead() const { return g_viols != v_base; }
-    explicit TR(int b) : bufsize(b), ring(b) {}
+    // construction paths: 0 ring(n); 1 default-constructed then resize(n); 2 copy of a ring(n)
+    static igris::ring<T> *construct(int b, int path)
+    {
+        mc::crash_context("C03.typed_ring.ctor.memory");
+        if (path == 0)
+            return new igris::ring<T>(b);
+        if (path == 1)
+        {
+            igris::ring<T> *r = new igris::ring<T>();
+            r->resize(b);
+            return r;
+        }
+        igris::ring<T> proto(b);
+        return new igris::ring<T>(proto);
+    }
+    explicit TR(int b, int path = 0) : bufsize(b), holder(construct(b, path)), ring(*holder) {}
     unsigned rsize() const { return (unsigned)bufsize + 1; }
     string tn(const char *what) const { return string("C03.typed_ring.") + what; }
     string str()
@@ -867,9 +967,10 @@ template <class T> struct TR
     }
 };
 
-template <class T> static TR<T> *build_typed(int bufsize, int k, int m)
+static const char *const TPATH[] = {"ring(n)", "ring() + resize(n)", "copy of ring(n)"};
+template <class T> static TR<T> *build_typed(int bufsize, int k, int m, int path = 0)
 {
-    TR<T> *t = new TR<T>(bufsize);
+    TR<T> *t = new TR<T>(bufsize, path);
     mc::crash_context("C03.typed_ring.ctor.memory");
     for (int i = 0; i < k; i++)
     {
@@ -894,12 +995,14 @@ template <class T> static void typed_case()
     int bufsize = g_bk[bi].bufsize, k = g_bk[bi].k;
     int m = mc::choose(bufsize + 1);
     int grp = mc::choose(is_char ? 8 : 7);
+    // resize() hands out raw storage and the copy shares nothing: only for trivially constructible elements
+    int path = std::is_trivially_default_constructible<T>::value ? mc::choose(3) : 0;
     static const char *const G[] = {"observe+drain", "push/emplace", "pop", "clear/reset", "set_last_index(all)", "resize(all)", "head_place/move_*_one", "read(k)/write(k)"};
     int sz = bufsize + 1;
-    mc::describe("igris::ring<%s>(%d): %d push+pop (head at slot %d), then %d pushes; ops: %s", V<T>::name(), bufsize, k, k % sz, m, G[grp]);
+    mc::describe("igris::ring<%s>(%d) built as %s: %d push+pop (head at slot %d), then %d pushes; ops: %s", V<T>::name(), bufsize, TPATH[path], k, k % sz, m, G[grp]);
     if ((k % sz) + m >= sz || k >= sz)
         mc::nontrivial(); // the live region wraps, or head has been round at least once
-    auto fresh = [&]() { return std::unique_ptr<TR<T>>(build_typed<T>(bufsize, k, m)); };
+    auto fresh = [&]() { return std::unique_ptr<TR<T>>(build_typed<T>(bufsize, k, m, path)); };
     switch (grp)
     {
     case 0:
@@ -1264,12 +1367,20 @@ template <class T> static void uarray_case()
 {
     int N = typed_max();
     int c = mc::choose((N + 1) * (N + 1));
+    int via_resize = mc::choose(2);
     int sz = c / (N + 1), n = c % (N + 1);
-    mc::describe("unbounded_array<%s>(%d) then resize(%d)", V<T>::name(), sz, n);
+    mc::describe("unbounded_array<%s>%s(%d) then resize(%d)", V<T>::name(), via_resize ? "() + resize" : "", sz, n);
     if (n != sz)
         mc::nontrivial();
     mc::crash_context("C03.unbounded_array.ctor.memory");
-    igris::unbounded_array<T> a(sz);
+    igris::unbounded_array<T> a0(via_resize ? 0 : sz), a1;
+    igris::unbounded_array<T> &a = via_resize ? a1 : a0;
+    if (via_resize)
+    {
+        a.resize(sz);
+        for (int i = 0; i < sz; i++)
+            new (a.data() + i) T(); // resize hands out raw storage
+    }
     if (a.size() != (size_t)sz || a.end() - a.begin() != sz || (sz && a.data() != &a[0]))
         VIOL("C03.unbounded_array.ctor.size", "unbounded_array(%d): size()=%zu", sz, a.size());
     for (int i = 0; i < sz; i++)
@@ -1297,6 +1408,38 @@ template <class T> static void uarray_case()
         VIOL("C03.unbounded_array.fill", "fill over %d elements reached %d", n, cntd);
     mc::outcome(mc::fmt("ua %d", n));
     mc::crash_context("C03.harness");
+}
+
+// ======================================================================================================
+// A0. every public initialisation path x every size: the fresh ring is empty, takes exactly size-1 bytes, gives them back
+// ======================================================================================================
+static std::vector<unsigned> g_initsizes;
+static void init_paths_case()
+{
+    int ch = mc::choose((int)g_initsizes.size() * N_INIT);
+    unsigned size = g_initsizes[ch / N_INIT];
+    int path = ch % N_INIT;
+    struct Sfx
+    {
+        explicit Sfx(unsigned size) { g_sigsfx = size >= 127 ? (size >= 65536 ? ".size_ge_65536" : size >= 256 ? ".size_ge_256" : ".size_ge_127") : ""; }
+        ~Sfx() { g_sigsfx = ""; }
+    } sfx(size);
+    mc::describe("ring of %u slots set up by %s: fresh state, fill, read back", size, INIT_NAME[path]);
+    if (path != INIT_FN)
+        mc::nontrivial();
+    mc::crash_context("C03.%s.memory", INIT_NAME[path]);
+    CR c(size, path);
+    mc::outcome(mc::fmt("init %u %u %u", c.r.head, c.r.tail, c.r.size == size));
+    if (fresh_ok(c))
+        verify(c, INIT_NAME[path], size > 1000);
+    // and once more after traffic: clean, re-check
+    if (c.in_range() && !mc::case_has_violation())
+    {
+        op_putc(c, 0xFF);
+        op_clean(c);
+        if (fresh_ok(c))
+            verify(c, "ring_clean", size > 1000);
+    }
 }
 
 // ======================================================================================================
@@ -1344,15 +1487,21 @@ static const char *const BGRP[] = {"write(k)", "read(k)", "move_head(bias)", "mo
 static void big_cring_case()
 {
     int si = mc::choose((int)g_bigstates.size());
+    int path = mc::choose(N_INIT);
     int grp = mc::choose(6);
     St s = g_bigstates[si];
     unsigned size = s.size, avail = (s.head >= s.tail) ? s.head - s.tail : size + s.head - s.tail, room = size - 1 - avail;
     SigClass sc(size);
-    mc::describe("ring size=%u head=%u tail=%u (avail %u), ops: %s at the boundary lengths", size, s.head, s.tail, avail, BGRP[grp]);
+    mc::describe("ring size=%u set up by %s, head=%u tail=%u (avail %u), ops: %s at the boundary lengths", size, INIT_NAME[path], s.head, s.tail, avail, BGRP[grp]);
     std::vector<unsigned> K = boundary_counts(size);
     long n = 0, nt = 0;
     auto eval = [&](const char *opname, unsigned amount, const std::function<void(CR &)> &f) {
-        CR c(size);
+        CR c(size, path);
+        if (!fresh_ok(c))
+        {
+            n++;
+            return;
+        }
         c.r.head = s.head;
         c.r.tail = s.tail;
         for (unsigned j = 0; j < avail; j++)
@@ -1511,15 +1660,16 @@ static void big_typed_observe(TR<int> &t, const std::vector<unsigned> &B, const 
 static void big_typed_case()
 {
     int ci = mc::choose((int)g_bigtyped.size());
+    int path = mc::choose(3);
     int n = g_bigtyped[ci].n;
     unsigned hb = g_bigtyped[ci].pos, sz = (unsigned)n + 1;
     SigClass sc(sz);
-    mc::describe("igris::ring<int>(%d): head rotated to slot %u, then %d pushes through a full ring; accessors at every boundary position", n, hb, 2 * n + 3);
+    mc::describe("igris::ring<int>(%d) built as %s: head rotated to slot %u, then %d pushes through a full ring; accessors at every boundary position", n, TPATH[path], hb, 2 * n + 3);
     mc::nontrivial();
     std::vector<unsigned> B = boundary_positions(sz);
     auto at_boundary = [&](unsigned p) { return std::binary_search(B.begin(), B.end(), p); };
     {
-        TR<int> t(n);
+        TR<int> t(n, path);
         mc::crash_context("C03.typed_ring.push.memory");
         for (unsigned i = 0; i < hb; i++)
         {
@@ -1541,7 +1691,7 @@ static void big_typed_case()
     // stamp every slot, make slot idx the newest: last()/get_last address backwards from it
     for (unsigned idx : B)
     {
-        TR<int> t(n);
+        TR<int> t(n, path);
         for (unsigned i = 0; i < sz; i++)
             t.ring.get((int)i) = 1000 + (int)i;
         mc::crash_context("C03.typed_ring.set_last_index.memory");
@@ -1759,6 +1909,11 @@ static void register_all(bool thorough)
         for (unsigned c : boundary_positions((unsigned)n, n > 1000))
             g_bigsc.push_back({n, (int)c});
 
+    for (unsigned s = 2; s <= maxsize; s++)
+        g_initsizes.push_back(s);
+    for (unsigned s : bigsizes)
+        g_initsizes.push_back(s);
+    mc::add_check("cring_init_paths", init_paths_case);
     mc::add_check("cring_every_state_every_op", cring_case);
     for (unsigned n = 2; n <= (thorough ? 6u : 5u); n++)
         mc::add_bfs(mc::fmt("cring_bfs_size%u", n), [n]() { return std::unique_ptr<mc::Model>(new CRingModel(n)); });
